@@ -83,7 +83,8 @@ def _get_agent_data_old__discrete_space(space, agent_portrayal):
     """
     all_agent_data = []
     for content, (x, y) in space.coord_iter():
-        if not content:
+        if content is None:
+            # an empty cell of a single grid (an agent may have a False truth value)
             continue
         if not hasattr(content, "__iter__"):
             # Is a single grid
